@@ -403,7 +403,29 @@ func TestC07(t *testing.T) {
 			gAuto = append(gAuto, "("+e.pos(to)+", "+e.pos(from)+", "+autoName(resp)+")")
 		}
 		seenKey := map[string]bool{}
-		for i := r.Intn(4); i > 0; i-- {
+		// ---- how the holder is funded for the genesis records: exactly / with a surplus (InitGenesis must
+		// accept), or UNDER-funded in one of four shapes (InitGenesis must refuse: it panics)
+		const (
+			fundOK = iota
+			fundShortHeld   // short in one denom that the holder does hold
+			fundDenomAbsent // one record denom is not held by the holder at all
+			fundEmpty       // the holder holds nothing
+			fundShortBySum  // every record alone is covered, two records together are not
+		)
+		funding := fundOK
+		nRec := r.Intn(4)
+		if r.Intn(6) == 0 {
+			funding = 1 + r.Intn(4)
+			if nRec == 0 {
+				nRec = 1
+			}
+			if funding == fundShortBySum && nRec < 2 {
+				nRec = 2
+			}
+		}
+		var recCoins []sdk.Coins
+		var holderGets sdk.Coins
+		for i := nRec; i > 0; i-- {
 			to := pick(players)
 			var froms []sdk.AccAddress
 			nf := 2 + r.Intn(2)
@@ -431,21 +453,66 @@ func TestC07(t *testing.T) {
 			if cs.IsZero() {
 				cs = sdk.NewCoins(sdk.NewInt64Coin(dens[0], 7))
 			}
+			if funding == fundShortBySum && cs.AmountOf(dens[0]).IsZero() {
+				cs = cs.Add(sdk.NewInt64Coin(dens[0], 1+r.Int63n(90))) // the records share a denom
+			}
 			declined := r.Intn(4) == 0
 			gs.QuarantinedFunds = append(gs.QuarantinedFunds, quarantine.NewQuarantinedFunds(to, froms, cs, declined))
 			gFunds = append(gFunds, "("+e.pos(to)+", "+e.posList(froms)+", "+e.coins(cs)+", "+coqBool(declined)+")")
-			extra := cs
-			if r.Intn(5) == 0 { // the holder sometimes has more than the records need
-				extra = cs.Add(sdk.NewInt64Coin(dens[0], 1+r.Int63n(9)))
+			recCoins = append(recCoins, cs)
+			holderGets = holderGets.Add(cs...)
+			if funding == fundOK && r.Intn(5) == 0 { // the holder sometimes has more than the records need
+				holderGets = holderGets.Add(sdk.NewInt64Coin(dens[0], 1+r.Int63n(9)))
 			}
-			give(holder, extra)
 			if len(froms) > 1 {
 				w.Count("genesis_multi_sender_records")
 			}
 		}
-		if err := try(func() error { app.QuarantineKeeper.InitGenesis(ctx, gs); return nil }); err != nil {
-			t.Fatalf("InitGenesis: %v", err)
+		if funding != fundOK && len(recCoins) == 0 {
+			funding = fundOK // every generated record repeated a key: nothing to under-fund
 		}
+		if funding == fundShortBySum && len(recCoins) < 2 {
+			funding = fundShortHeld
+		}
+		fundingName := "covered"
+		switch funding {
+		case fundShortHeld:
+			c := holderGets[r.Intn(len(holderGets))]
+			if c.Amount.Int64() >= 2 {
+				holderGets = holderGets.Sub(sdk.NewInt64Coin(c.Denom, 1+r.Int63n(c.Amount.Int64()-1)))
+				fundingName = "short_in_a_denom_the_holder_holds"
+			} else {
+				holderGets = holderGets.Sub(c)
+				fundingName = "record_denom_absent_from_holder"
+			}
+		case fundDenomAbsent:
+			c := holderGets[r.Intn(len(holderGets))]
+			holderGets = holderGets.Sub(c)
+			fundingName = "record_denom_absent_from_holder"
+			if holderGets.IsZero() {
+				fundingName = "holder_empty"
+			}
+		case fundEmpty:
+			holderGets = nil
+			fundingName = "holder_empty"
+		case fundShortBySum:
+			// in dens[0]: at least the largest single record, less than all records together
+			var sum, max int64
+			for _, cs := range recCoins {
+				a := cs.AmountOf(dens[0]).Int64()
+				sum += a
+				if a > max {
+					max = a
+				}
+			}
+			x := max + r.Int63n(sum-max)
+			holderGets = holderGets.Sub(sdk.NewInt64Coin(dens[0], sum-x))
+			fundingName = "covered_record_by_record_but_not_together"
+		}
+		if !holderGets.IsZero() {
+			give(holder, holderGets)
+		}
+		w.Count("genesis_funding_" + fundingName)
 		var gBal []string
 		for _, a := range e.accts {
 			for _, c := range app.BankKeeper.GetAllBalances(ctx, a) {
@@ -454,6 +521,21 @@ func TestC07(t *testing.T) {
 		}
 		genesis := "{| g_optin := " + coqList(gOpt) + "; g_auto := " + coqList(gAuto) + "; g_funds := " + coqList(gFunds) +
 			"; g_bal := " + coqList(gBal) + "; g_xfer := " + coqList(gXfer) + " |}"
+		// the real InitGenesis, in a branch of the store that is kept only when it does not panic
+		gctx, gwrite := ctx.CacheContext()
+		if err := try(func() error { app.QuarantineKeeper.InitGenesis(gctx, gs); return nil }); err != nil {
+			w.Count("genesis_refused")
+			if funding == fundOK {
+				w.Count("genesis_refused_although_covered")
+			}
+			w.Add("CGenRefused "+e.pos(holder)+"\n    "+genesis, map[string]any{"history": hi, "genesis_refused": true,
+				"genesis_funding": fundingName, "genesis_records": len(gs.QuarantinedFunds), "prefix_collision": false})
+			continue
+		}
+		gwrite()
+		if funding != fundOK {
+			w.Count("genesis_accepted_although_underfunded")
+		}
 		obs0 := e.observe(ctx, true, nil)
 
 		// ---- operations
